@@ -271,7 +271,13 @@ func RunCheck(opt *Options) (*CheckReport, error) {
 			if _, full := ld.pkgs[p.Path()]; !full {
 				continue // only partially imported (export data): not used by this property's kernel
 			}
-			return nil, fmt.Errorf("%s: trusted pure interface %s.%s: no such type", pi.File, pi.Pkg, pi.Name)
+			// a declaration error in one contract file must not abort the checks of unrelated properties:
+			// it is a failure of the properties whose kernel contains the declaring package
+			if pkgSet[pi.FromPkg] || pi.FromPkg == "" {
+				return nil, fmt.Errorf("%s: trusted pure interface %s.%s: no such type", pi.File, pi.Pkg, pi.Name)
+			}
+			fmt.Printf("warning: %s: trusted pure interface %s.%s: no such type (ignored: not part of this property's packages)\n", pi.File, pi.Pkg, pi.Name)
+			continue
 		}
 		ms := types.NewMethodSet(tn.Type())
 		for i := 0; i < ms.Len(); i++ {
